@@ -835,3 +835,44 @@ pub fn coincidence_case(cont: &Shape, path: &[Step], variant: usize, r: &mut Rng
     lines.push("reborrow".into());
     Some((init, lines))
 }
+
+/// Limit scripts for the `TestUnderlyingData` backing. Every script ENDS with the growth that must be refused
+/// (that store refuses by panicking, which ends the borrow).
+pub struct TbsScript {
+    pub path: Vec<Step>,
+    pub variant: usize,
+    pub step: usize,
+}
+
+impl TbsScript {
+    pub const VARIANTS: usize = 8;
+}
+
+impl OpSource for TbsScript {
+    fn next(&mut self, v: &GenView) -> Option<String> {
+        let room = v.cap.saturating_sub(v.len);
+        let grow = |n: usize| grow_line(v.shape, v.model, &self.path, n);
+        let shrink = |n: usize| shrink_line(v.shape, v.model, &self.path, n);
+        let reb = || Some("reborrow".to_string());
+        self.step += 1;
+        let s = self.step;
+        match self.variant {
+            // exactly the limit in one step, one more in the same borrow
+            0 => match s { 1 => grow(room), 2 => Some("touch .".into()), 3 => grow(1), _ => None },
+            // … in two steps
+            1 => match s { 1 => grow(room - 1), 2 => grow(1), 3 => grow(1), _ => None },
+            // one more in the NEXT borrow
+            2 => match s { 1 => grow(room), 2 => reb(), 3 => grow(1), _ => None },
+            // two steps in two borrows, one more in a third
+            3 => match s { 1 => grow(room / 2), 2 => reb(), 3 => grow(room), 4 => reb(), 5 => grow(1), _ => None },
+            // shrink below the original length, regrow to exactly the limit (a step > 10240), one more
+            4 => match s { 1 => grow(room), 2 => shrink(100_000), 3 => reb(), 4 => grow(room), 5 => grow(1), _ => None },
+            // already grown; the second step alone is <= 10240 but the total passes the limit by one
+            5 => match s { 1 => grow(6000.min(room)), 2 => grow(room + 1), _ => None },
+            // the same across two borrows
+            6 => match s { 1 => grow(6000.min(room)), 2 => reb(), 3 => grow(room + 1), _ => None },
+            // shrink, regrow within the same borrow, then past the limit by a wider margin
+            _ => match s { 1 => grow(room / 3), 2 => shrink(room / 3 + 100_000), 3 => grow(room), 4 => shrink(7), 5 => grow(7 + 64), _ => None },
+        }
+    }
+}
